@@ -3,6 +3,7 @@ package main
 import (
 	"encoding/json"
 	"fmt"
+	"math"
 	"reflect"
 	"sort"
 	"strings"
@@ -12,6 +13,9 @@ import (
 )
 
 var recordTops = []string{"Inner", "Prims", "Opts", "Dflt", "Coll", "WithU", "Incl", "Incl2", "Rec", "Big", "IX", "IY"}
+
+// C06 also reads the record-typed-default family (DEmp) and the WIDE record (70 required fields, 36 through an include)
+var c06Tops = append(append([]string{}, recordTops...), "DEmp", "Wide")
 
 // delete / null / permute / inject on a conforming document
 func mutateDoc(s *Schema, t RType, d *Doc, r *hx.Rand, allowNull bool) (*Doc, string) {
@@ -69,12 +73,17 @@ func decodeAny(tname string, jsonText string) (oc outcome, v *Val) {
 	if err := json.Unmarshal([]byte(jsonText), &x); err != nil {
 		return outcome{Class: "err", Text: err.Error()}, nil
 	}
+	return decodeAnyX(tname, x, nil, 0)
+}
+
+// NewInterfaceReaderWithExcludedFields(x, spec, ignore) + the generated UnmarshalRestLi of tname
+func decodeAnyX(tname string, x interface{}, spec restlicodec.PathSpec, ignore int) (oc outcome, v *Val) {
 	var err error
 	var p interface{}
 	ptr := reflect.New(registry[tname])
 	func() {
 		defer func() { p = recover() }()
-		err = ptr.Interface().(restlicodec.Unmarshaler).UnmarshalRestLi(restlicodec.NewInterfaceReader(x))
+		err = ptr.Interface().(restlicodec.Unmarshaler).UnmarshalRestLi(restlicodec.NewInterfaceReaderWithExcludedFields(x, spec, ignore))
 	}()
 	oc = classify(err, p)
 	if oc.Class == "ok" || oc.Class == "missing" {
@@ -83,10 +92,404 @@ func decodeAny(tname string, jsonText string) (oc outcome, v *Val) {
 	return oc, v
 }
 
+// ---- exclusion specs (read-only / create-only fields of a create or update request)
+
+// is the path (field names, map keys, union aliases; "*" for array items) excluded for a reader constructed with the
+// directives and leadingScopeToIgnore = ignore: the first `ignore` segments are not matched
+func pathExcluded(ds []string, ignore int, segs []string) bool {
+	return len(segs) > ignore && specExcludes(ds, segs[ignore:])
+}
+
+func okDirectiveKey(k string) bool {
+	return k != "" && k != "*" && k != "$set" && k != "$delete" && !strings.ContainsAny(k, "/")
+}
+
+type fieldPath struct {
+	segs     []string
+	required bool
+}
+
+// the paths of the record fields met along the document (present or not), required ones flagged; array items are "*", map keys are
+// the key (sometimes "*")
+func (s *Schema) fieldPaths(r *hx.Rand, t RType, d *Doc, segs []string, out *[]fieldPath) {
+	sub := func(k string) []string { return append(append([]string{}, segs...), k) }
+	switch {
+	case t.Primitive != "":
+	case t.Array != nil:
+		if d == nil || d.Kind != "arr" {
+			return
+		}
+		for _, x := range d.Items {
+			s.fieldPaths(r, *t.Array, x, sub("*"), out)
+		}
+	case t.Map != nil:
+		if d == nil || d.Kind != "obj" {
+			return
+		}
+		for i, x := range d.Items {
+			if !okDirectiveKey(d.Keys[i]) {
+				continue
+			}
+			k := d.Keys[i]
+			if r.Chance(30) {
+				k = "*"
+			}
+			s.fieldPaths(r, *t.Map, x, sub(k), out)
+		}
+	default:
+		n := s.Types[t.Reference.Name]
+		switch n.Kind {
+		case "record":
+			req := map[string]bool{}
+			for _, f := range s.requiredOf(n.Name) {
+				req[f] = true
+			}
+			var walk func(rec string)
+			walk = func(rec string) {
+				m := s.Types[rec]
+				for _, inc := range m.Includes {
+					walk(inc)
+				}
+				for _, f := range m.Fields {
+					*out = append(*out, fieldPath{sub(f.Name), req[f.Name]})
+					if d != nil && d.Kind == "obj" {
+						for i, k := range d.Keys {
+							if k == f.Name {
+								s.fieldPaths(r, f.Type, d.Items[i], sub(k), out)
+							}
+						}
+					}
+				}
+			}
+			walk(n.Name)
+		case "standaloneUnion":
+			if d == nil || d.Kind != "obj" {
+				return
+			}
+			for i, k := range d.Keys {
+				for _, m := range n.Members {
+					if m.Alias == k {
+						s.fieldPaths(r, m.Type, d.Items[i], sub(k), out)
+					}
+				}
+			}
+		}
+	}
+}
+
+// every object key that occurs, at any depth, in a default literal reachable from type t.  The generated populateLocalDefaultValues
+// parses a default literal with a FRESH reader (no excluded fields); the model (Codec/Decode.v lit_value) decodes it under the
+// reader's own spec.  The two differ only when a directive matches a path inside a literal (relative to the literal's root), which
+// requires the directive's first segment to be one of these keys: such specs are not generated (documented in the evidence).
+func (s *Schema) literalKeys(t RType, seen map[string]bool, out map[string]bool) {
+	switch {
+	case t.Primitive != "":
+	case t.Array != nil:
+		s.literalKeys(*t.Array, seen, out)
+	case t.Map != nil:
+		s.literalKeys(*t.Map, seen, out)
+	default:
+		n := s.Types[t.Reference.Name]
+		if seen[n.Name] {
+			return
+		}
+		seen[n.Name] = true
+		for _, inc := range n.Includes {
+			s.literalKeys(ref(inc), seen, out)
+		}
+		for _, f := range n.Fields {
+			s.literalKeys(f.Type, seen, out)
+			if f.DefaultValue != nil {
+				var raw interface{}
+				if json.Unmarshal([]byte(*f.DefaultValue), &raw) == nil {
+					var walk func(x interface{})
+					walk = func(x interface{}) {
+						switch y := x.(type) {
+						case map[string]interface{}:
+							for k, z := range y {
+								out[k] = true
+								walk(z)
+							}
+						case []interface{}:
+							for _, z := range y {
+								walk(z)
+							}
+						}
+					}
+					walk(raw)
+				}
+			}
+		}
+		for _, m := range n.Members {
+			s.literalKeys(m.Type, seen, out)
+		}
+	}
+}
+
+// the document without any member at an excluded path (what a well-behaved peer sends when those fields are read-only)
+func pruneExcluded(d *Doc, ds []string, ignore int, segs []string) *Doc {
+	c := *d
+	c.Keys, c.Items = nil, nil
+	switch d.Kind {
+	case "obj":
+		for i, k := range d.Keys {
+			p := append(append([]string{}, segs...), k)
+			if pathExcluded(ds, ignore, p) {
+				continue
+			}
+			c.Keys = append(c.Keys, k)
+			c.Items = append(c.Items, pruneExcluded(d.Items[i], ds, ignore, p))
+		}
+	case "arr":
+		for _, x := range d.Items {
+			c.Items = append(c.Items, pruneExcluded(x, ds, ignore, append(append([]string{}, segs...), "*")))
+		}
+	}
+	return &c
+}
+
+// every object with its members in the opposite order
+func reverseDoc(d *Doc) *Doc {
+	c := *d
+	c.Keys, c.Items = nil, nil
+	for i := len(d.Items) - 1; i >= 0; i-- {
+		if d.Kind == "obj" {
+			c.Keys = append(c.Keys, d.Keys[i])
+		}
+		c.Items = append(c.Items, nil)
+	}
+	for i, x := range d.Items {
+		j := i
+		if d.Kind == "obj" {
+			j = len(d.Items) - 1 - i
+		}
+		c.Items[j] = reverseDoc(x)
+	}
+	return &c
+}
+
+// the property's own definition of the expected error under an exclusion spec: every required field, at any depth, that is absent
+// or null and whose path is not excluded, by its full path (independent of the library)
+func (s *Schema) missingUnder(t RType, d *Doc, path string, segs []string, ds []string, ignore int, out *[]string) {
+	sub := func(k string) []string { return append(append([]string{}, segs...), k) }
+	switch {
+	case t.Primitive != "":
+	case t.Array != nil:
+		if d == nil || d.Kind != "arr" {
+			return
+		}
+		for i, x := range d.Items {
+			s.missingUnder(*t.Array, x, fmt.Sprintf("%s[%d]", path, i), sub("*"), ds, ignore, out)
+		}
+	case t.Map != nil:
+		if d == nil || d.Kind != "obj" {
+			return
+		}
+		for i, x := range d.Items {
+			if x.Kind != "null" {
+				s.missingUnder(*t.Map, x, joinPath(path, d.Keys[i]), sub(d.Keys[i]), ds, ignore, out)
+			}
+		}
+	default:
+		n := s.Types[t.Reference.Name]
+		switch n.Kind {
+		case "record":
+			present := map[string]*Doc{}
+			if d != nil && d.Kind == "obj" {
+				for i, k := range d.Keys {
+					if d.Items[i].Kind != "null" {
+						present[k] = d.Items[i]
+					}
+				}
+			}
+			for _, f := range s.requiredOf(n.Name) {
+				if _, ok := present[f]; !ok && !pathExcluded(ds, ignore, sub(f)) {
+					*out = append(*out, joinPath(path, f))
+				}
+			}
+			for k, x := range present {
+				if ft, ok := s.fieldType(n.Name, k); ok {
+					s.missingUnder(ft, x, joinPath(path, k), sub(k), ds, ignore, out)
+				}
+			}
+		case "standaloneUnion":
+			if d == nil || d.Kind != "obj" {
+				return
+			}
+			for i, k := range d.Keys {
+				for _, m := range n.Members {
+					if m.Alias == k && d.Items[i].Kind != "null" {
+						s.missingUnder(m.Type, d.Items[i], joinPath(path, k), sub(k), ds, ignore, out)
+					}
+				}
+			}
+		}
+	}
+	sort.Strings(*out)
+}
+
+// ---- maps and slices of CONCRETE element type for the untyped reader (it accepts any map with string keys, any slice)
+
+// the same tree in which a map / slice whose members all have the same dynamic type T becomes a map[string]T / []T (probability p
+// per node; integral numbers may become an int type); n counts the converted nodes
+func typify(r *hx.Rand, x interface{}, p int, n *int) interface{} {
+	switch y := x.(type) {
+	case map[string]interface{}:
+		keys := make([]string, 0, len(y))
+		for k := range y {
+			keys = append(keys, k)
+		}
+		sort.Strings(keys)
+		kids := make(map[string]interface{}, len(y))
+		vals := make([]interface{}, len(keys))
+		for i, k := range keys {
+			vals[i] = typify(r, y[k], p, n)
+			kids[k] = vals[i]
+		}
+		if len(keys) > 0 && r.Chance(p) {
+			if el, ok := commonType(r, vals); ok {
+				m := reflect.MakeMapWithSize(reflect.MapOf(reflect.TypeOf(""), el), len(keys))
+				for i, k := range keys {
+					m.SetMapIndex(reflect.ValueOf(k), reflect.ValueOf(vals[i]).Convert(el))
+				}
+				*n++
+				return m.Interface()
+			}
+		}
+		return kids
+	case []interface{}:
+		vals := make([]interface{}, len(y))
+		for i := range y {
+			vals[i] = typify(r, y[i], p, n)
+		}
+		if len(vals) > 0 && r.Chance(p) {
+			if el, ok := commonType(r, vals); ok {
+				sl := reflect.MakeSlice(reflect.SliceOf(el), len(vals), len(vals))
+				for i := range vals {
+					sl.Index(i).Set(reflect.ValueOf(vals[i]).Convert(el))
+				}
+				*n++
+				return sl.Interface()
+			}
+		}
+		return vals
+	}
+	return x
+}
+
+// the element type for members that all have the same dynamic type (none nil); float64 members that are all integral may be
+// given an integer type, those exactly representable float32
+func commonType(r *hx.Rand, vals []interface{}) (reflect.Type, bool) {
+	if vals[0] == nil {
+		return nil, false
+	}
+	t := reflect.TypeOf(vals[0])
+	for _, v := range vals {
+		if v == nil || reflect.TypeOf(v) != t {
+			return nil, false
+		}
+	}
+	if t.Kind() != reflect.Float64 {
+		return t, true
+	}
+	cands := []reflect.Type{t}
+	i32, i53, f32 := true, true, true
+	for _, v := range vals {
+		f := v.(float64)
+		integral := f == math.Trunc(f) && !math.IsInf(f, 0) && !(f == 0 && math.Signbit(f))
+		i32 = i32 && integral && f >= math.MinInt32 && f <= math.MaxInt32
+		i53 = i53 && integral && math.Abs(f) <= 1<<53
+		f32 = f32 && float64(float32(f)) == f
+	}
+	if i32 {
+		cands = append(cands, reflect.TypeOf(int32(0)), reflect.TypeOf(int32(0)), reflect.TypeOf(int(0)))
+	}
+	if i53 {
+		cands = append(cands, reflect.TypeOf(int64(0)), reflect.TypeOf(int(0)))
+	}
+	if f32 {
+		cands = append(cands, reflect.TypeOf(float32(0)))
+	}
+	return cands[r.Intn(len(cands))], true
+}
+
+// the kind a value has in a JSON document
+func (v *Val) jsonKind() string {
+	switch v.K {
+	case "int", "long":
+		return "num"
+	case "float":
+		f := float64(math.Float32frombits(uint32(v.Bits)))
+		if math.IsNaN(f) || math.IsInf(f, 0) {
+			return "str"
+		}
+		return "num"
+	case "double":
+		f := math.Float64frombits(v.Bits)
+		if math.IsNaN(f) || math.IsInf(f, 0) {
+			return "str"
+		}
+		return "num"
+	case "bool":
+		return "bool"
+	case "str", "bytes", "fixed", "enum":
+		return "str"
+	case "arr":
+		return "arr"
+	}
+	return "obj"
+}
+
+// the record value restricted to the fields (own and included) whose JSON kind is `kind`: its encoding is an object whose members
+// all have the same kind, which a map with a concrete element type can hold
+func (s *Schema) projectVal(rec string, v *Val, kind string) *Val {
+	n := s.Types[rec]
+	out := &Val{K: "rec"}
+	for i, inc := range n.Includes {
+		out.Incs = append(out.Incs, s.projectVal(inc, v.Incs[i], kind))
+	}
+	for i := range n.Fields {
+		x := v.Fields[i]
+		if x != nil && x.jsonKind() != kind {
+			x = nil
+		}
+		out.Fields = append(out.Fields, x)
+	}
+	return out
+}
+
+// primitive leaves become the zero value of their type (0, false, "") with probability p: a zero that is PRESENT is a value
+func (s *Schema) zeroSome(r *hx.Rand, v *Val, p int) {
+	if v == nil {
+		return
+	}
+	if r.Chance(p) {
+		switch v.K {
+		case "int", "long":
+			v.Z = 0
+		case "float", "double":
+			v.Bits = 0
+		case "bool":
+			v.B = false
+		case "str":
+			v.S = ""
+		}
+	}
+	for _, l := range [][]*Val{v.Incs, v.Fields, v.Items} {
+		for _, x := range l {
+			s.zeroSome(r, x, p)
+		}
+	}
+}
+
 func runC06(cfg *hx.Config) {
 	rep := hx.NewReport("for every record type of the family and seeded valid values: the reference encoding (independent renderer) mutated by deleting random subsets of " +
 		"fields at every depth (required or not), nulling fields (JSON), permuting keys in every object and injecting unknown primitive/object/array fields, " +
 		"decoded by the JSON reader, the ROR2 reader, the query-parameter reader (aggregate) and the untyped reader; expected missing set computed independently. " +
+		"The family includes a record with 70 required fields (36 through an include). EXCLUSION stream: readers constructed WithExcludedFields (JSON, ROR2, untyped; " +
+		"leadingScopeToIgnore 0 or 1) with 1-3 directives naming mostly REQUIRED fields met along the document (array items as *, map keys literal or *), on the document " +
+		"pruned of every member at an excluded path, then mutated as above, in both member orders (every object as is and reversed): an excluded required field that is absent " +
+		"is never reported, every other absent required field is, by its exact path. " +
 		"non-trivial = at least one required field deleted or nulled; distinct by (type, format, document)")
 	sh := hx.NewShards(cfg.Out, header(), "CodecCorr", 40)
 	r := hx.NewRand(cfg.Seed)
@@ -94,9 +497,13 @@ func runC06(cfg *hx.Config) {
 	if cfg.Thorough() {
 		n = 1500
 	}
-	for _, tname := range recordTops {
+	for _, tname := range c06Tops {
 		t := ref(tname)
-		for i := 0; i < n; i++ {
+		nt := n
+		if tname == "Wide" {
+			nt = n / 4
+		}
+		for i := 0; i < nt; i++ {
 			v := schema.gen(r, t, genOpts{utf8: true, depth: 1 + r.Intn(3)})
 			base := schema.refEncode(t, v)
 			c := newCase("c06", tname, schema.coqTy(t))
@@ -151,7 +558,113 @@ func runC06(cfg *hx.Config) {
 			}
 		}
 	}
+	runC06Excl(cfg, rep, sh, r)
 	sh.Close()
 	rep.Shards = sh.Files
 	rep.Write(cfg.Out)
+}
+
+// readers WITH excluded fields: a required field that is excluded and absent is not reported and does not disturb what is read after it
+func runC06Excl(cfg *hx.Config, rep *hx.Report, sh *hx.Shards, r *hx.Rand) {
+	n := 20
+	if cfg.Thorough() {
+		n = 600
+	}
+	for _, tname := range c06Tops {
+		t := ref(tname)
+		litKeys := map[string]bool{}
+		schema.literalKeys(t, map[string]bool{}, litKeys)
+		nt := n
+		if tname == "Wide" {
+			nt = n / 2
+		}
+		for i := 0; i < nt; i++ {
+			v := schema.gen(r, t, genOpts{utf8: true, depth: 1 + r.Intn(3)})
+			base := schema.refEncode(t, v)
+			ignore := 0
+			if r.Chance(20) {
+				ignore = 1
+			}
+			var fps []fieldPath
+			schema.fieldPaths(r, t, base, nil, &fps)
+			var cands [][]string
+			for _, fp := range fps {
+				if len(fp.segs) > ignore && len(fp.segs)-ignore <= 4 && (fp.required || r.Chance(25)) && !litKeys[fp.segs[ignore]] {
+					cands = append(cands, fp.segs[ignore:])
+				}
+			}
+			if len(cands) == 0 {
+				continue
+			}
+			var ds []string
+			for k := 1 + r.Intn(3); k > 0; k-- {
+				d := strings.Join(cands[r.Intn(len(cands))], "/")
+				if r.Chance(15) {
+					d = "/" + d
+				}
+				ds = append(ds, d)
+			}
+			tds := trimAll(ds)
+			if !wellFormedDirectives(tds) {
+				continue
+			}
+			spec := restlicodec.NewPathSpec(ds...)
+			pruned := pruneExcluded(base, tds, ignore, nil)
+			c := newCase("c06", tname, schema.coqTy(t))
+			c.desc.Excl, c.desc.Ign, c.desc.Note = ds, ignore, "exclusion"
+			c.addVal(v)
+			for k := 0; k < 3; k++ {
+				f := []int{0, 2, 0}[k]
+				d0, note := mutateDoc(schema, t, pruned, r, f == 0)
+				if f == 0 && !d0.jsonOK() {
+					continue
+				}
+				for o, d := range []*Doc{d0, reverseDoc(d0)} {
+					text := d.render(f, r, false)
+					var want []string
+					schema.missingUnder(t, d, "", nil, tds, ignore, &want)
+					var naive []string
+					schema.missingSpec(t, d, "", &naive)
+					var oc outcome
+					var got *Val
+					reader := formats[f]
+					if k == 2 {
+						var x interface{}
+						if err := json.Unmarshal([]byte(text), &x); err != nil {
+							continue
+						}
+						oc, got = decodeAnyX(tname, x, spec, ignore)
+						reader = "any"
+					} else {
+						oc, got = decodeVal(tname, f, text, spec, ignore)
+						c.dec(f, text, oc, got)
+					}
+					rep.Evaluations++
+					rep.Count("reader=" + reader + "+excluded-fields")
+					rep.Count(fmt.Sprintf("excluded-and-absent=%d", minInt(len(naive)-len(want), 3)))
+					rep.Count(fmt.Sprintf("ignore=%d", ignore))
+					rep.Distinct(tname+reader+strings.Join(ds, ",")+text, len(want) > 0 || len(naive) > len(want))
+					cd := map[string]interface{}{"type": tname, "reader": reader, "excluded_fields": ds, "leading_scope_to_ignore": ignore, "document": text,
+						"member_order": []string{"as generated", "reversed"}[o], "mutations": note, "expected_missing": want, "absent_but_excluded": len(naive) - len(want), "outcome": oc}
+					site := "v2/restlicodec/missing_fields.go (" + reader + " reader with excluded fields)"
+					switch {
+					case oc.Class == "panic":
+						rep.Fail("missing:panic:"+reader, "decoder panicked on a document with missing fields", site, cd, oc.Text)
+					case len(want) == 0 && oc.Class != "ok":
+						rep.Fail("missing:spurious-"+oc.Class+":"+reader, "no required field that is not excluded is missing but decoding fails", site, cd, oc.Text)
+					case len(want) > 0 && oc.Class != "missing":
+						rep.Fail("missing:not-reported:"+reader, "required fields are missing but no missing-required-fields error is returned", site, cd, oc.Text)
+					case len(want) > 0 && strings.Join(oc.Fields, "|") != strings.Join(want, "|"):
+						rep.Fail("missing:wrong-set:"+reader, "the reported set of missing fields differs from the absent required fields that are not excluded", site, cd, oc.Fields)
+					}
+					if len(naive) > len(want) && len(want) > 0 && k == 0 && o == 0 {
+						rep.Sample(cd)
+					}
+				}
+			}
+			if len(c.ops) > 0 {
+				sh.Add(c.coq(), c.describe())
+			}
+		}
+	}
 }
